@@ -130,6 +130,8 @@ func runC02(c *Ctx, r *Report) {
 	r.Rule("C02.R9", "left associativity is printed: in InfixExpression.PrettyPrint some path from the print of Left to the print of Right raises PrintState.ExpressionPrecedence, so that a right operand of the same precedence keeps its parentheses")
 	r.Rule("C02.R10", "a missing optional operand prints as nothing: on the edge where InfixExpression.Right is nil (open ended slice) no text is printed")
 	c.checkInfixPrinter(r)
+	r.Rule("C02.R11", "one statement stands for its block only when it is alone: in packages ast and object every constant-index access k into the Statements slice of an ast.Statements lies on the edge where len of that slice == k+1")
+	c.checkSingleStatementAccess(r, "C02.R11")
 	r.Rule("C02.R1", "visitor field coverage: every child-carrying field of every syntax-node type (nodes, node lists, blocks, names, maps of nodes, the previous token of a postfix) is read by that type's PrettyPrint or the same-type helpers it calls")
 	r.Rule("C02.R2", "operator nodes (those built by infix/postfix-registered parse functions and the prefix-operator node) consult the enclosing precedence to decide on parentheses and set their own precedence before printing their left-position child")
 	r.Rule("C02.R3", "table agreement: every token type an operator node can carry into needParen has an entry in ast.Precedences (needParen panics otherwise)")
